@@ -128,13 +128,14 @@ CLAIMED['C10'] = dict(
     note='Trusted: Lean kernel; heap identity/pointers and JSON text validity are observed, not proved; ignore_order rows are implementation-only until that model is registered.',
     technique='Lean 4 proof (list induction over the tree) + heap walk abstraction + differential correspondence')
 CLAIMED['C13'] = dict(
-    text='PARTIAL. Lean 4 lemmas: literal exclusion is exact membership of the level path, anchored regexes skip exactly at-or-below, reported entries never sit on a skipped level, an '
-         'excluded child contributes nothing; Lean witnesses for include with non-string keys (F10a/c) and the threshold leak (F10b). ' + _DIFFMODEL.replace('over generated pairs', 'under the same path options over generated pairs') +
-         'The pure-filter equation (restricted = filtered unrestricted; positional mode, threshold 0) is decided on the implementation for every existing path, singles and pairs, '
-         'exclude / regex / include; its Lean theorem is not proved yet.',
+    text='PARTIAL. Lean 4 theorem (C13_exclude_is_filter): in positional mode with threshold 0, for every pair of values of any size and nesting and every list E of exclude_paths, '
+         'the restricted result is exactly the unrestricted result minus the entries whose path has an excluded path on the way from the root (the entry itself included): nothing else '
+         'is dropped, added or changed; corollary: nothing below an excluded path is ever reported. Lemmas: literal exclusion is exact membership of the level path, anchored regexes '
+         'skip exactly at-or-below, an excluded child contributes nothing; Lean witnesses for include with non-string keys (F10a/c) and the threshold leak (F10b). ' + _DIFFMODEL.replace('over generated pairs', 'under the same path options over generated pairs') +
+         'For exclude_regex_paths, include_paths and the default alignment mode (dict-key paths) the filter equation is decided on the implementation for every existing path, singles and pairs.',
     design='5/C13',
-    note='Trusted: Lean kernel; re module. The filter equation rests on evaluation. Known findings F10a, F10b, F10c.',
-    technique='Lean 4 lemmas + differential correspondence; filter equation by evaluation over all existing paths')
+    note='Trusted: Lean kernel; re module. Partial: the theorem covers exclude_paths in positional mode; regex / include / default alignment rest on evaluation. Known findings F10a, F10b, F10c.',
+    technique='Lean 4 proof (mutual structural induction with a prefix invariant on entry paths) + differential correspondence; regex / include by evaluation over all existing paths')
 _DELTAMODEL = ('Model = Lean port of DeepDiff._to_delta_dict (payload from the diff tree, incl. opcodes with old/new slices), Delta.__add__ (the phases in the order '
                'regenerated from the source each run, tuple coercion and post-processing, path sorting and its fallback comparator, closest-element search) and '
                '_get_reverse_diff / __rsub__; tied to the code on every run by comparing the canonical payload, t1 + delta and t2 - delta outcomes (value, logged error, escaped '
